@@ -251,8 +251,9 @@ func (s *Server) verifyConsensusFieldMain(cp *params.CaravelParams, seedHeader *
 	if err != nil {
 		return err
 	}
+	// thresholds are those of the protocol version in force (cp), never the ones the block's author wrote into the header
 	isValid, err := VrfVerifyPriority(vrfPK, seedCon.Seed, consensusData.RoundIndex, UConStepProposal, consensusData.SortitionProof,
-		consensusData.Priority, consensusData.SubUsers, consensusData.ProposerThreshold, validator.Stake, vs.GetStakeByKind(params.KindChamber))
+		consensusData.Priority, consensusData.SubUsers, cp.ProposerThreshold, validator.Stake, vs.GetStakeByKind(params.KindChamber))
 	if err != nil || !isValid {
 		logging.Error("VerifyHeader failed, priority is invalid.", "Round", consensusData.Round, "RoundIndex", consensusData.RoundIndex,
 			"hash", header.Hash().String(), "parent", header.ParentHash.String(), "stake", validator.Stake, "totalStake", vs.GetStakeByKind(params.KindChamber), "err", err)
@@ -275,7 +276,7 @@ func (s *Server) verifyConsensusFieldMain(cp *params.CaravelParams, seedHeader *
 		seed:               seedCon.Seed,
 		round:              consensusData.Round,
 		roundIndex:         ucValidators.RoundIndex,
-		validatorThreshold: consensusData.ValidatorThreshold,
+		validatorThreshold: cp.ValidatorThreshold,
 	}
 	err = s.verifyVotes(cd, ucValidators.ChamberCommitters, ucValidators.SCAggrSig, uint32(Precommit), params.KindChamber, true)
 	if err != nil {
@@ -306,7 +307,7 @@ func (s *Server) verifyConsensusFieldMain(cp *params.CaravelParams, seedHeader *
 		cd.cp = &yp.CaravelParams
 		cd.lbVld = certVldReader
 		cd.seed = certCon.Seed
-		cd.validatorThreshold = certCon.CertValThreshold
+		cd.validatorThreshold = yp.CertValThreshold
 		ucCertificates, err := ExtractUconValidators(header, params.LookBackCert)
 		if err != nil {
 			logging.Error("VerifyHeader failed. Get ucCertificates from Look back block failed.", "Round", consensusData.Round, "RoundIndex", consensusData.RoundIndex, err)
@@ -677,7 +678,7 @@ func (s *Server) VerifyAcHeader(chain consensus.ChainReader, acHeader *types.Hea
 		seed:               seedConsData.Seed,
 		round:              currConsData.Round,
 		roundIndex:         chtCerts.RoundIndex,
-		validatorThreshold: seedConsData.CertValThreshold,
+		validatorThreshold: yp.CertValThreshold,
 	}
 	err = s.verifyVotes(cd, chtCerts.ChamberCerts, chtCerts.CCAggrSig, uint32(Certificate), params.KindChamber, false)
 	if err != nil {
